@@ -72,3 +72,7 @@ reg("C17", "runtime contracts on AccumulatorFactory.make_accumulator, IAdder.mak
 reg("C19", "runtime monitoring: brute-force loop-nest MAC counters as reference, spies (recording wrappers) on every energy helper and gate function, conservation / formula / selection oracles over recorded contributions",
     "Generated quantized and plain models over kernel 1..5, strides 1..3, same/valid/causal, dilation, groups, channels 1..8, pooling and six merge types x memory placements {dram,sram,fixed}^2 x rd_wr_on_io x min_sram_size x quantizers: reported operation counts (qtools and estimate routes) == loop-nest counts; every energy entry >= 0 and equal to an independent re-evaluation of the documented formulas from the recorded arguments; total == sum of recorded contributions; extracted sums/profiles == sums of the selected entries; the gates consulted are the documented ones; global config and caller dictionaries unmodified.",
     "Reference counters are self-checked (two independent counters, executed all-ones Keras layer); a reference disagreement is a harness error, never a verdict.", "5/C19")
+
+reg("C20", "runtime monitoring: recording/replaying hyper-parameter stub that enumerates the decision tree of the real AutoQKHyperModel (DFS / product / pairwise+random), per-leaf oracle from an independent resolution of the limits; contracts on ForgivingFactor.delta",
+    "28 (quick) / 112 (thorough) scenarios = reference model x limit dictionary (per class, regex patterns incl. overlapping, allow-lists, default padding) x quantization config (small: exhaustive; library default: sampled) x tune_filters x layer_indexes: every value offered by every Choice and every quantizer of every trial model lies in {config entries with bits <= limit(layer, role)} and equals the stub's answer; excluded / softmax / linear layers untouched; one decision per pattern group; architecture and filter scaling as requested; size model recomputed independently; delta sign/zero/monotone/continuity/calibration on a parameter grid and online on every call; build() trial size and adjusted score.",
+    "Search-space completeness is observed, not enforced (the statement is about soundness); spaces above the leaf cap are sampled and reported as non-exhaustive.", "5/C20")
